@@ -318,6 +318,52 @@ main (int argc, char **argv)
 		}
 	    }
 	}
+	else if (kind[0] == 'B')
+	{
+	    /* B: mode dfmt dw dh dneg op api clipn (clip boxes x1 y1 x2 y2)* nboxes (boxes)* alpha seed
+	     * pixman_image_fill_boxes (api 0) / fill_rectangles (api 1) with an optional destination clip that may
+	     * reach beyond the image */
+	    int mode = (int)f[k++];
+	    pixman_format_code_t dfmt = (pixman_format_code_t)f[k++];
+	    int dw = (int)f[k++], dh = (int)f[k++], dneg = (int)f[k++], op = (int)f[k++], api = (int)f[k++];
+	    int clipn = (int)f[k++], nb, j;
+	    pixman_box32_t cb[8], bx[8];
+	    pixman_rectangle16_t rc[8];
+	    pixman_color_t col;
+	    pixman_image_t *dst;
+	    for (j = 0; j < clipn && j < 8; j++)
+	    {
+		cb[j].x1 = (int)f[k++]; cb[j].y1 = (int)f[k++]; cb[j].x2 = (int)f[k++]; cb[j].y2 = (int)f[k++];
+	    }
+	    nb = (int)f[k++];
+	    for (j = 0; j < nb && j < 8; j++)
+	    {
+		bx[j].x1 = (int)f[k++]; bx[j].y1 = (int)f[k++]; bx[j].x2 = (int)f[k++]; bx[j].y2 = (int)f[k++];
+		rc[j].x = (int16_t)bx[j].x1; rc[j].y = (int16_t)bx[j].y1;
+		rc[j].width = (uint16_t)(bx[j].x2 - bx[j].x1); rc[j].height = (uint16_t)(bx[j].y2 - bx[j].y1);
+	    }
+	    col.alpha = (uint16_t)f[k++];
+	    vrng_seed (&rng, (uint64_t)f[k++]);
+	    col.red = (uint16_t)vrng_next (&rng) % (col.alpha + 1); col.green = col.red / 2; col.blue = col.red / 3;
+	    nimgs = 0;
+	    dst = make_image (nimgs++, dfmt, dw, dh, dneg, mode, &rng);
+	    fprintf (vt_out, "{\"e\":\"Req\",\"n\":%d,\"kind\":\"B\",\"mode\":%d,\"dw\":%d,\"dh\":%d,\"ok\":%s}\n", reqno, mode, dw, dh, dst ? "true" : "false");
+	    fflush (vt_out);
+	    if (dst)
+	    {
+		if (clipn)
+		{
+		    pixman_region32_t clip;
+		    pixman_region32_init_rects (&clip, cb, clipn);
+		    pixman_image_set_clip_region32 (dst, &clip);
+		    pixman_region32_fini (&clip);
+		}
+		if (api == 0)
+		    pixman_image_fill_boxes ((pixman_op_t)op, dst, &col, nb, bx);
+		else
+		    pixman_image_fill_rectangles ((pixman_op_t)op, dst, &col, nb, rc);
+	    }
+	}
 	alarm (0);
 	fprintf (vt_out, "{\"e\":\"Done\",\"n\":%d", reqno);
 	log_images ();
